@@ -193,6 +193,16 @@ def _buckets(ctx):
                need_actions=['AddServer', 'RemoveServer', 'SetNotUp', 'Put', 'Remove'])
     if res['violated']:
         ctx.log('Buckets.tla: Sound violated in the MODEL (design level); see trace clause C02.prune for the code')
+    # unbounded in the number of operations: the invariant is inductive (Apalache)
+    obligations = [('Init => IndInv', 'Init', 'IndInv', 0),
+                   ('IndInv /\\ Next => IndInv\'', 'IndInit', 'IndInv', 1),
+                   ('IndInv => Sound', 'IndInit', 'Sound', 0)]
+    done = []
+    for name, init, inv, length in obligations:
+        r = tlc.apalache(sc.SPEC_DIR, 'BucketsApa', init, inv, length, timeout=300 if ctx.quick else 900)
+        done.append(dict(obligation=name, discharged=bool(r['ok']), wall_s=r['wall_s'], cmd=r['cmd']))
+        ctx.log('Apalache %s: %s (%.0fs)' % (name, 'discharged' if r['ok'] else 'NOT discharged rc=%s' % r['rc'], r['wall_s']))
+    ctx.notes.append(dict(apalache_inductive_invariant=done))
 
 
 def judge(ctx, prop, traces, verdicts):
@@ -238,7 +248,8 @@ def judge(ctx, prop, traces, verdicts):
         ctx, level='model_checking', violations=violations, evaluations=evaluations,
         distinct_nontrivial=len(nontrivial), rule=CONF[prop]['rule'], samples=samples,
         traces_validated=len(traces), assumptions=ASSUMPTIONS,
-        extra=dict(trace_sources=dict(collections.Counter(t.get('src') for t in traces))))
+        extra=dict(trace_sources=dict(collections.Counter(t.get('src') for t in traces)),
+                   notes=ctx.notes))
 
 
 def replay(ctx, prop, path):
